@@ -667,6 +667,9 @@ func run(ctx *Ctx) *Result {
 					w = w[1:]
 				}
 				neg := strings.HasPrefix(cmd, "no ") || strings.HasPrefix(cmd, "clear ")
+				if !neg && len(w) > 0 && w[0] == "aaa-server" && c.dev.findHead(cmd) != nil {
+					continue // enters the mode of an existing host line (to edit the modelled reference `ldap-attribute-map M`)
+				}
 				if len(w) > 0 && (w[0] == "aaa-server" || w[0] == "interface" || (neg && len(w) > 1 && w[0] == "ldap" && w[1] == "attribute-map")) {
 					res.Fail(sig("manually_maintained_object_touched"), fmt.Sprintf("command %d %q changes an object that must be left to the administrator\nscript:\n%s", i, cmd, out), c)
 					break
@@ -911,6 +914,9 @@ func run(ctx *Ctx) *Result {
 		} else {
 			b := g.genTarget()
 			a, note := g.genDevice(b)
+			if len(a.kindObjects("ldapmap")) > 0 && len(b.kindObjects("ldapmap")) > 0 && g.r.Chance(35) {
+				note = append(note, g.dropLdapMap(a, b)...)
+			}
 			c = cfgCase{Dev: a.print(), Spoc: b.print(), Note: note, dev: a, spoc: b}
 		}
 		if i%2 == 0 && g.r.Chance(15) {
